@@ -224,6 +224,13 @@ pub fn run(req: &RunRequest) -> Value {
                 id_version: 0,
             });
         }
+        // 1 in 3 runs the nodes mark two of the three statements of every keyspace as
+        // conditional (LWT mark in the prepared metadata): the policy then routes them to
+        // the replicas in a fixed order - still replicas, still in the preferred datacenter.
+        if tape::chance("c12:lwt_marks", 1, 3) {
+            cluster.features.lwt_ext = true;
+            cluster.features.lwt_marked_shapes = cluster.catalog.iter().filter(|s| s.table == "t" || s.table == "t3").map(|s| s.shape.clone()).collect();
+        }
         cluster.keyspaces.push(KeyspaceDef {
             name: "system".into(),
             strategy: Strategy::Local,
